@@ -332,7 +332,7 @@ def _subsets(rng, n, k, include_all=True):
 
 def plan(rng, mesh, elem, depth, comp=None):
     """Selections and queries for one basis.  depth: 1 (quick) .. 3 (thorough)."""
-    nf, nt, nv = mesh.facets.shape[1], mesh.t.shape[1], mesh.p.shape[1]
+    nf, nt, nv = mesh.facets.shape[1], mesh.t.shape[1], int(mesh.nvertices)
     sels = []
     for kind, n, k in (('facets', nf, 2 + 2 * depth), ('elements', nt, 2 + depth), ('nodes', nv, 2 + depth)):
         for ids_ in _subsets(rng, n, k):
@@ -359,12 +359,15 @@ def plan(rng, mesh, elem, depth, comp=None):
             continue
         nsets = singles + pair + [names, [], ['zz']]
         for i, ns in enumerate(nsets):
-            queries.append({'a': 'Query', 'sel': j, 'skip': [], 'op': _op('all', ns), 'forms': [i]})
-            queries.append({'a': 'Query', 'sel': j, 'skip': [], 'op': _op('keep', ns), 'forms': [i + 1]})
-            queries.append({'a': 'Query', 'sel': j, 'skip': [], 'op': _op('drop', ns), 'forms': [i + 2]})
-            if skips:
-                queries.append({'a': 'Query', 'sel': j, 'skip': skips[i % len(skips)], 'op': _op('drop', ns),
-                                'forms': [i]})
+            full = depth >= 2 or (i + j) % 2 == 0          # quick tier: alternate the operations over the name sets
+            if full or i % 2 == 0:
+                queries.append({'a': 'Query', 'sel': j, 'skip': [], 'op': _op('all', ns), 'forms': [i]})
+                queries.append({'a': 'Query', 'sel': j, 'skip': [], 'op': _op('drop', ns), 'forms': [i + 2]})
+            if full or i % 2 == 1:
+                queries.append({'a': 'Query', 'sel': j, 'skip': [], 'op': _op('keep', ns), 'forms': [i + 1]})
+                if skips:
+                    queries.append({'a': 'Query', 'sel': j, 'skip': skips[i % len(skips)], 'op': _op('drop', ns),
+                                    'forms': [i]})
         for ns in singles[:2]:
             queries.append({'a': 'Query', 'sel': j, 'skip': [], 'op': _op('all', ns, as_str=1), 'forms': [0]})
         if len(names) >= 2:
